@@ -436,7 +436,7 @@ Record rentity := { re_alias : option ident; re_ns : ident; re_name : ident;
 
 (* resolved selection (EntityQuery / QueryField), what query.rs compiles *)
 Inductive cfield :=
-| CScalar (sys : bool) (binary : bool) (dflt : bool)
+| CScalar (sys : bool) (binary : bool) (dflt : bool)    (* for a user field the 2nd flag says: its type is Json *)
 | CJsonSel (dflt : bool)
 | CSub (key : ident) (arr : bool) (nullable : bool) (subs : list cfield).
 Record centity := { ce_alias : ident; ce_search : option (list N); ce_fields : list cfield }.
@@ -458,7 +458,7 @@ Fixpoint resolve_field (dm : dmodel) (e : dentity) (f : rfield) {struct f} : opt
   | RNamed alias name =>
       if negb (alias_admissible e alias) then None
       else match get_field e name with
-           | Some (FUserF (KScalar js d)) => Some (field_key alias name, CScalar false false d)
+           | Some (FUserF (KScalar js d)) => Some (field_key alias name, CScalar false js d)
            | Some (FSysScalar b) => Some (field_key alias name, CScalar true b false)
            | _ => None                                   (* unknown, or entity field without { } *)
            end
@@ -563,7 +563,8 @@ Fixpoint emit (parent : ident) (c : cfield) {struct c} : list tok * list tok :=
   match c with
   | CScalar true true _ => ([TX; TL; TAl parent; TX; TR], [])     (* 'k', base64_encode(P.col) *)
   | CScalar true false _ => ([TX; TAl parent; TX], [])            (* 'k', P.col *)
-  | CScalar false _ true => ([TX; TL; TX; TR], [])                (* 'k',Ifnull(_json->'$.n',d) *)
+  | CScalar false false true => ([TX; TL; TX; TR], [])            (* 'k',Ifnull(_json->'$.n',d) *)
+  | CScalar false true true => ([TX; TL; TX; TL; TX; TR; TR], []) (* 'k',Ifnull(_json->'$.n',json(?)) : Json default *)
   | CScalar false _ false => ([TX], [])                           (* 'k',_json->'$.n' *)
   | CJsonSel true => ([TX; TL; TX; TR], [])                       (* 'k', Ifnull(sel,d) *)
   | CJsonSel false => ([TX], [])
@@ -616,7 +617,8 @@ Fixpoint counts (c : cfield) {struct c} : c3 * c3 :=
   match c with
   | CScalar true true _ => ((0, 1, 1)%N, (0, 0, 0)%N)
   | CScalar true false _ => ((0, 0, 0)%N, (0, 0, 0)%N)
-  | CScalar false _ true => ((0, 1, 1)%N, (0, 0, 0)%N)
+  | CScalar false false true => ((0, 1, 1)%N, (0, 0, 0)%N)
+  | CScalar false true true => ((0, 2, 2)%N, (0, 0, 0)%N)
   | CScalar false _ false => ((0, 0, 0)%N, (0, 0, 0)%N)
   | CJsonSel true => ((0, 1, 1)%N, (0, 0, 0)%N)
   | CJsonSel false => ((0, 0, 0)%N, (0, 0, 0)%N)
@@ -963,10 +965,21 @@ Definition connection_obs (info : fstep) (ans qs evs : list fstep) : list Z :=
   else [0; 0; 0; 0; zb (N.leb alloc_bound a0)].
 
 (* a row ingested through add_nodes: refused without a write when its author has no right at its
-   date (rights exist from [rights_from] on); otherwise written, and the daily log is marked on the
-   writer thread with date_utils::date(mdate) = DateTime::from_timestamp_millis(mdate).unwrap() *)
+   date (rights exist from [rights_from] on); otherwise written, and on the writer thread the daily
+   log is marked with date_utils::date(mdate) = DateTime::from_timestamp_millis(mdate).unwrap() and,
+   when the log is next computed, read with date_next_day(that day) = day + 1 day.
+   [outcome of add_nodes; does the writer answer after the next computation of the log] *)
 Definition max_calendar_ms : Z := 8210266876799999.      (* +262142-12-31T23:59:59.999Z *)
-Definition ingest_outcome (rights_from mdate : Z) : outcome :=
-  if Z.ltb mdate rights_from then OOk
-  else if Z.leb mdate max_calendar_ms then OOk
-  else OPanic.
+Definition last_day_start_ms : Z := 8210266790400000.    (* +262142-12-31T00:00:00Z: its next day does not exist *)
+Inductive ingest_fate := IRefusedOrWritten | IWriterDiesAtCompute | IWriterDiesAtWrite.
+Definition ingest_fate_of (rights_from mdate : Z) : ingest_fate :=
+  if Z.ltb mdate rights_from then IRefusedOrWritten
+  else if Z.ltb mdate last_day_start_ms then IRefusedOrWritten
+  else if Z.leb mdate max_calendar_ms then IWriterDiesAtCompute
+  else IWriterDiesAtWrite.
+Definition ingest_obs (rights_from mdate : Z) : list Z :=
+  match ingest_fate_of rights_from mdate with
+  | IRefusedOrWritten => [0; 1]
+  | IWriterDiesAtCompute => [0; 0]
+  | IWriterDiesAtWrite => [2; 0]
+  end.
